@@ -203,3 +203,92 @@ Example C12_nonvacuous :
   (exists s, effective true e empty_st 18994 = Ok (s, inl LNone7)) /\
   (exists s, effective true e empty_st 19012 = Ok (s, inl LNotYet)).
 Proof. exact CacheProps.c12_example. Qed.
+
+(* ======================================================================
+   "... otherwise an error": the remote fails (Model/RatesFail.v,
+   Proofs/RatesFailProps.v).  A request fails when the HttpRequester returns
+   Err ([RqHttp], error class [FHttp]) or when the body is rejected as a whole
+   by parse_rates_json ([RqDoc], [FDoc]; C12_malformed_document_is_error says
+   which bodies those are). *)
+From ACB Require Import Model.CrashFs Model.RatesFail Proofs.RatesFailProps.
+
+(* For EVERY history and EVERY script of request / cache read / cache write
+   outcomes the history itself never fails, and run by run, look-up by look-up
+   ([history_ok], [lookup_ok]): either all requests made during the look-up
+   succeeded and the answer is the reference answer (= the rule, C12_rule), or
+   the LAST request of the look-up failed and the answer is that request's
+   error (wrapped in the look-back error when it happened there); the years
+   requested successfully in a run are pairwise different. *)
+Theorem C12_remote_failure_is_error :
+  forall (truth : calendar) runs params t0 a0 s0,
+    runsF_ok truth t0 a0 runs params ->
+    CacheRows truth t0 a0 (s_cache (f_s s0)) ->
+    exists s' outs,
+      historyF s0 runs = Ok (s', outs) /\
+      history_ok runs (ref_answers truth (plain_runs runs) params) outs.
+Proof. exact RatesFailProps.history_general. Qed.
+Check C12_remote_failure_is_error :
+  forall (truth : calendar) runs params t0 a0 s0,
+    runsF_ok truth t0 a0 runs params ->
+    CacheRows truth t0 a0 (s_cache (f_s s0)) ->
+    exists s' outs,
+      historyF s0 runs = Ok (s', outs) /\
+      history_ok runs (ref_answers truth (plain_runs runs) params) outs.
+Print Assumptions C12_remote_failure_is_error.
+
+(* what that judgement means for one answer: it is the reference answer or a
+   remote error; it is a remote error EXACTLY when a request made during the
+   look-up failed; an answer that is a rate is the reference's rate (never a
+   stale or zero rate because of a failure) *)
+Theorem C12_remote_failure_answers : forall e refa a new,
+  lookup_ok e refa a new ->
+  (a = lift_ans refa \/ exists err, a = inl err /\ remote_err err) /\
+  ((exists err, a = inl err /\ remote_err err) <-> (exists y, In (y, false) new)) /\
+  (forall x, a = inr x -> refa = inr x /\ all_ok new).
+Proof. exact RatesFailProps.lookup_ok_facts. Qed.
+Check C12_remote_failure_answers : forall e refa a new,
+  lookup_ok e refa a new ->
+  (a = lift_ans refa \/ exists err, a = inl err /\ remote_err err) /\
+  ((exists err, a = inl err /\ remote_err err) <-> (exists y, In (y, false) new)) /\
+  (forall x, a = inr x -> refa = inr x /\ all_ok new).
+Print Assumptions C12_remote_failure_answers.
+
+(* The failure is NOT remembered.  One get_exact_usd_cad_rate step from any
+   reachable loader state: either a request failed -- then the step returns
+   that error and the loader state (year maps, fresh years, cache) is exactly
+   what it was, only the request is logged, so the next look-up that needs the
+   year asks the remote again -- or the step answers like the reference and
+   made at most one, successful, request. *)
+Theorem C12_remote_failure_not_cached :
+  forall (truth : calendar) today avail e s d,
+    runF_ok truth today avail e -> InvF truth today avail s ->
+    exists s' r,
+      exactF e s d = Ok (s', r) /\ InvF truth today avail s' /\
+      ((exists err, r = inl err /\ failed_step e (year_of d) s s' err) \/
+       (r = lift_ans (exact_ref (rem truth avail) today d) /\ quiet_or_dl (year_of d) s s')).
+Proof. exact RatesFailProps.exact_stepF. Qed.
+Check C12_remote_failure_not_cached :
+  forall (truth : calendar) today avail e s d,
+    runF_ok truth today avail e -> InvF truth today avail s ->
+    exists s' r,
+      exactF e s d = Ok (s', r) /\ InvF truth today avail s' /\
+      ((exists err, r = inl err /\ failed_step e (year_of d) s s' err) \/
+       (r = lift_ans (exact_ref (rem truth avail) today d) /\ quiet_or_dl (year_of d) s s')).
+Print Assumptions C12_remote_failure_not_cached.
+
+(* Non-vacuity: on 20 January 2022, 5 January is asked three times: the first
+   request fails in the requester, the second look-up asks AGAIN and gets a
+   body that is no rates document, the third is served; then the look-back of
+   1 January reaches into 2021, whose request fails, and the same look-up
+   repeated asks again and answers (nothing within 7 days). *)
+Example C12_remote_failure_nonvacuous :
+  runsF_ok ex_truth 0 0 exF_runs3 [(19012, 19012)] /\
+  exists s outs,
+    historyF (fstate_of empty_st) exF_runs3 = Ok (s, outs) /\
+    map fo_answers outs =
+      [[(inl FHttp, [(2022, false)]);
+        (inl FDoc, [(2022, false)]);
+        (inr (18997, Qcfrac 30997 10000), [(2022, true)]);
+        (inl (FLookback FHttp), [(2021, false)]);
+        (inl FNone7, [(2021, true)])]].
+Proof. exact RatesFailProps.remote_failure_example. Qed.
